@@ -213,7 +213,7 @@ class Gen:
                     "how": r.choice(["in_base", "in_base", "convert_to_base", "get_base_equivalent", "in_cgs", "in_mks"]),
                     "store": self.store()}
         if kind == "unitop":
-            return {"k": "unitop", "f": r.choice(["mul", "div", "pow", "eq", "same_dims", "conv", "str", "latex"]),
+            return {"k": "unitop", "f": r.choice(["mul", "div", "pow", "eq", "same_dims", "conv", "str"]),
                     "x": x, "y": y, "p": r.choice([2, -1, 0.5]), "store": self.store()}
         if kind == "simplify":
             return {"k": "simplify", "x": x}
@@ -617,7 +617,10 @@ class Sim:
         # I5: the default registry refuses modify/remove, always
         if node.kind == "default" and k in ("modify", "modify_q", "remove"):
             self.fault("edit_on_default")
-            if warm.get("exc") != "TypeError":
+            # refusing = raising (TypeError from the registry itself, or the
+            # error of building the quantity argument) and changing nothing
+            # (the table audit below checks the latter)
+            if warm.get("exc") is None:
                 self.violate("default-not-readonly", ["C13"], {"op": op, "warm": warm}, [k])
         if warm.get("exc") != cold.get("exc"):
             self.violate("edit-refusal", ["C12"],
@@ -674,6 +677,7 @@ class Sim:
                 x = w.operand(op, f)
                 nids.add(w.node_of(x.units.registry))
         req = rw.make_cold_request(w, op)
+        self._xslot = w.slot(op, "x") if ("x" in op and w.heap) else None
         if "s" in op:
             cls = spelling_class(op["s"])
             self.shape.append(f"{k}:{cls}")
@@ -702,7 +706,7 @@ class Sim:
                     and after[n][2] > 0) for n in after):
                 w.probe("lru_eviction")
         if (k, op.get("how")) in rw.INPLACE_TARGET or k == "simplify":
-            warm["target"] = rw.describe(w.operand(op, "x"), w)
+            warm["target"] = rw.describe(w.heap[self._xslot], w)
         if "exc" in warm:
             self.stats["exc"][warm["exc"]] = self.stats["exc"].get(warm["exc"], 0) + 1
         if "s" in op:
@@ -733,7 +737,7 @@ class Sim:
         if op.get("store") and res is not None and "exc" not in warm:
             w.store(res)
         if (k, op.get("how")) in rw.INPLACE_TARGET and "exc" not in warm:
-            i = w.slot(op, "x")
+            i = self._xslot
             w.heap_meta[i] = rw.unit_snapshot(w.heap[i].units)
         return out
 
@@ -791,7 +795,7 @@ class Sim:
         # oracle 4: objects created earlier keep their value
         inplace = None
         if (k, op.get("how")) in rw.INPLACE_TARGET or k == "simplify":
-            inplace = w.slot(op, "x") if w.heap else None
+            inplace = self._xslot
         for i, (obj, meta) in enumerate(zip(w.heap, w.heap_meta)):
             u = obj.units
             if i == inplace and u is not meta[0]:
